@@ -156,3 +156,83 @@ Proof.
     inversion Hall; subst. specialize (Hhd []). cbn [app utf8_head_len length] in Hhd.
     replace (b0 <? 128) with false in Hhd by lia. split_ifs; discriminate.
 Qed.
+
+(* ---- boundaries: where a valid string may be cut ---- *)
+(* in a well-formed sequence the first byte is no continuation byte, all others are *)
+Lemma wf_seq_bytes s : wf_seq s ->
+  match s with [] => False | b0 :: t => is_cont b0 = false /\ Forall (fun b => is_cont b = true) t end.
+Proof.
+  intros [Hne Hhd]. destruct s as [|b0 r]; [contradiction|]. specialize (Hhd []). rewrite app_nil_r in Hhd.
+  unfold utf8_head_len in Hhd.
+  destruct r as [|b1 [|b2 [|b3 [|b4 r]]]]; cbn [length] in Hhd; split_ifs; try discriminate; try lia;
+    (split; [unfold is_cont, in_range in *; lia|repeat constructor; unfold is_cont, in_range in *; lia]).
+Qed.
+
+Definition boundary_head (l : bytes) : Prop := match l with [] => True | b :: _ => is_cont b = false end.
+
+Lemma seqs_boundary l : seqs l -> boundary_head l.
+Proof.
+  intros [|s l' Hwf _ _]; [exact I|]. pose proof (wf_seq_bytes s Hwf) as H. destruct s as [|b0 t]; [contradiction|]. apply H.
+Qed.
+
+(* a valid string cut where the second part does not start with a continuation byte: both parts are valid *)
+Lemma seqs_split l : seqs l -> forall a b, l = a ++ b -> boundary_head b -> seqs a /\ seqs b.
+Proof.
+  induction 1 as [|s l Hwf Hsh Hl IH]; intros a b E Hb.
+  - symmetry in E. apply app_eq_nil in E. destruct E as [-> ->]. split; constructor.
+  - pose proof (wf_seq_bytes s Hwf) as Hs. destruct s as [|b0 t]; [contradiction|]. destruct Hs as [H0 Ht].
+    destruct a as [|a0 a'].
+    + cbn [app] in E. subst b. split; [constructor|]. change (b0 :: t ++ l) with ((b0 :: t) ++ l). constructor; auto.
+    + cbn [app] in E. inversion E as [[E0 E1]]. subst a0.
+      (* either a' covers t, or b starts inside t *)
+      assert (Hcase : (exists a'', a' = t ++ a'' /\ l = a'' ++ b) \/ (exists t1 c t2, t = t1 ++ c :: t2 /\ a' = t1 /\ b = c :: t2 ++ l)).
+      { clear -E1. revert a' E1. induction t as [|x t IHt]; intros a' E1; cbn [app] in *.
+        - left. exists a'. auto.
+        - destruct a' as [|y a'']; cbn [app] in E1.
+          + right. exists [], x, t. subst b. auto.
+          + inversion E1 as [[Ex Er]]. subst y. destruct (IHt a'' Er) as [(a3 & -> & El)|(t1 & c & t2 & -> & -> & ->)].
+            * left. exists a3. auto.
+            * right. exists (x :: t1), c, t2. auto. }
+      destruct Hcase as [(a'' & -> & El)|(t1 & c & t2 & Et & _ & Eb)].
+      * destruct (IH a'' b El Hb) as [Ha Hb']. split; [|exact Hb'].
+        change (b0 :: t ++ a'') with ((b0 :: t) ++ a''). constructor; auto.
+      * exfalso. subst b t. cbn [boundary_head] in Hb. apply Forall_app in Ht. destruct Ht as [_ Ht].
+        inversion Ht; subst. congruence.
+Qed.
+
+Theorem utf8_valid_split a b : utf8_valid (a ++ b) = true -> boundary_head b -> utf8_valid a = true /\ utf8_valid b = true.
+Proof.
+  intros H Hb. apply valid_iff_seqs in H. destruct (seqs_split _ H a b eq_refl Hb) as [Ha Hb'].
+  split; apply valid_iff_seqs; assumption.
+Qed.
+
+Lemma valid_boundary l : utf8_valid l = true -> boundary_head l.
+Proof. intros H. apply seqs_boundary, valid_iff_seqs, H. Qed.
+
+Lemma ascii_boundary b l : b < 128 -> boundary_head (b :: l).
+Proof. intros H. cbn. unfold is_cont, in_range. lia. Qed.
+
+(* the middle of a valid string between two boundaries *)
+Theorem utf8_valid_slice a s b : utf8_valid (a ++ s ++ b) = true -> boundary_head (s ++ b) -> boundary_head b ->
+  utf8_valid s = true.
+Proof.
+  intros H Hs Hb. destruct (utf8_valid_split a (s ++ b) H Hs) as [_ H1].
+  destruct (utf8_valid_split s b H1 Hb) as [H2 _]. exact H2.
+Qed.
+
+(* after a valid prefix the rest of a valid string is valid *)
+Theorem utf8_valid_after a b : utf8_valid (a ++ b) = true -> utf8_valid a = true -> utf8_valid b = true.
+Proof.
+  intros H Ha. apply valid_iff_seqs in H. apply valid_iff_seqs in Ha. apply valid_iff_seqs.
+  revert b H. induction Ha as [|s l Hwf Hsh Hl IH]; intros b H; [exact H|].
+  rewrite <- app_assoc in H. inversion H as [E|s' l' Hwf' Hsh' Hl' E].
+  - destruct Hwf as [Hne _]. destruct s; [contradiction|discriminate].
+  - (* both decompositions start with the same sequence *)
+    assert (Es : s' = s /\ l' = l ++ b).
+    { destruct Hwf as [_ Hh]. destruct Hwf' as [_ Hh']. pose proof (Hh (l ++ b)) as L1. pose proof (Hh' l') as L2.
+      rewrite E in L2. rewrite L1 in L2.
+      assert (Ef : firstn (length s) (s' ++ l') = firstn (length s) (s ++ l ++ b)) by (rewrite E; reflexivity).
+      rewrite L2 in Ef at 1. rewrite !firstn_app, !Nat.sub_diag, !firstn_all in Ef. cbn [firstn] in Ef. rewrite !app_nil_r in Ef.
+      split; [exact Ef|]. subst s'. apply app_inv_head in E. exact E. }
+    destruct Es as [-> ->]. apply IH. exact Hl'.
+Qed.
